@@ -467,7 +467,17 @@ def gen_group_ops(rng, n, which):
 
 
 def gen_C04(rng, n): return gen_group_ops(rng, n, 'C04')
-def gen_C05(rng, n): return gen_group_ops(rng, n, 'C05')
+def gen_C05(rng, n):
+    out = gen_group_ops(rng, n, 'C05')
+    # fixed scalars, both groups, both operand orders: the scalars whose *stored* Montgomery form is 1 / 2 / 2^64
+    # (a shortcut keyed on the raw limbs fires exactly there), and r-1, r-2 on an un-normalised point
+    rinv = pow(2**256, -1, r)
+    for k in [rinv, 2 * rinv % r, (2**64) * rinv % r, r - 1, r - 2]:
+        for g, K, G in [('g1', K1, P1), ('g2', K2, P2)]:
+            A = pt_mul(K, rng.randrange(2, r), G)
+            ra, ta = rep(rng, K, A, rng.choice(['z=1', 'z=lambda']))
+            out.append((f'{g}.mul:fixed:{ra}', f'{g}.mul@{rng.choice(["", "rev"])} {ta} {h32(k)}'))
+    return out
 def gen_C15(rng, n): return gen_group_ops(rng, n, 'C15')
 def gen_C10(rng, n): return gen_group_ops(rng, n, 'C10')
 
